@@ -139,6 +139,17 @@ def extrudeShapeTris (pathLen sides : Nat) (close : Bool) : List Nat :=
       (if close then extrudeRing (pathIndex * sides) 0 sides else [])
     else extrudeRing (pathIndex * sides) ((pathIndex + 1) * sides) sides
 
+/-! ### extrude.Line (extrude/line.go:26-116): three vertices per path point, four triangles per segment -/
+
+def extrudeLineVerts (n : Nat) : Nat := n * 3
+
+def extrudeLineTris (n : Nat) : List Nat :=
+  (List.range (n - 1)).flatMap fun j =>        -- Go's i = j + 1
+    let front := (j + 1) * 3
+    let back := j * 3
+    [front, back, back + 1,  front, back + 1, front + 1,
+     front, front + 2, back,  front + 2, back + 2, back]
+
 /-! ### extrude.polygon (extrude/circle.go:50-194; `Polygon`, `Circle.Extrude`, `CircleAlongSpline.Extrude`):
 `pathLen` rings of `sides + 1` vertices. The winding of each quad is decided by a floating point
 test (`dir.Dot(...) < 0`), so it is a parameter here: one flag per quad, in emission order. -/
